@@ -240,6 +240,11 @@ func (r *RefStore) Reachable() []*RefEdge {
 			walk(e)
 		}
 	}
+	for _, k := range r.Order { // parentless placements, in creation order (Instance.Dump appends them the same way)
+		if e := r.Edges[k]; e.Up == "none" {
+			walk(e)
+		}
+	}
 	return out
 }
 
@@ -252,6 +257,9 @@ func pointEq(a, b data.Point) bool {
 }
 
 func fmtPoint(p data.Point) string {
+	if len(p.Text) > 64 {
+		p.Text = fmt.Sprintf("%s…(%d bytes)", p.Text[:24], len(p.Text))
+	}
 	return fmt.Sprintf("{%q/%q t=%d v=%v(%#x) txt=%q tomb=%d org=%q}", p.Type, p.Key, p.Time.UnixNano(), p.Value,
 		math.Float64bits(p.Value), p.Text, p.Tombstone, p.Origin)
 }
